@@ -259,20 +259,16 @@ func (e *zzEnv) zzCheckInvC(tag string, settled bool, success bool) {
 			wo++
 		}
 	}
-	if len(c.replicas) > 0 || c.backend.writer != nil {
-		nw := 0
-		if c.backend.writer != nil {
-			nw = len(c.backend.writer.(*MultiWriterAt).writers)
-		}
-		zzAssert(nw == nonErr, tag+".inv3.writers")
-		zzAssert(len(c.backend.readers) == rw, tag+".inv3.readers")
-		zzAssert(len(c.backend.writerIndex) == nonErr, tag+".inv3.writerIndex")
-		zzAssert(len(c.backend.readerIndex) == rw, tag+".inv3.readerIndex")
-		for _, addr := range c.backend.writerIndex {
+	if len(c.replicas) > 0 || zzHasWriter(c) {
+		zzAssert(zzNumWriters(c) == nonErr, tag+".inv3.writers")
+		zzAssert(zzNumReaders(c) == rw, tag+".inv3.readers")
+		zzAssert(len(zzWriterAddrs(c)) == nonErr, tag+".inv3.writerIndex")
+		zzAssert(len(zzReaderAddrs(c)) == rw, tag+".inv3.readerIndex")
+		for _, addr := range zzWriterAddrs(c) {
 			b, ok := c.backend.backends[addr]
 			zzAssert(ok && b.mode != types.ERR, tag+".inv3.writerIndex-entry")
 		}
-		for _, addr := range c.backend.readerIndex {
+		for _, addr := range zzReaderAddrs(c) {
 			b, ok := c.backend.backends[addr]
 			zzAssert(ok && b.mode == types.RW, tag+".inv3.readerIndex-entry")
 		}
